@@ -25,11 +25,29 @@ def yamlOfJson (j : Json) : Except String Yaml := do
 
 def strsOfJson (j : Json) : Except String (List String) := do (← j.getArr?).toList.mapM fun m => m.getStr?
 
-/-- a service: `{"sub": [...], "methods": [...]}`, or (inputs of earlier rounds) the bare list of RPC names = API package -/
+def genOfJson (j : Json) : Except String Gen := do
+  match ← j.getStr? with
+  | "public" => pure .pub
+  | "internal" => pure .internal
+  | "omitted" => pure .omitted
+  | g => throw s!"bad RPC status {g}"
+
+/-- an RPC: its name (public), or `[name, "public" | "internal" | "omitted"]` -/
+def methOfJson (j : Json) : Except String (String × Gen) :=
+  match j with
+  | Json.str n => pure (n, .pub)
+  | _ => do
+    match (← j.getArr?).toList with
+    | [n, g] => pure (← n.getStr?, ← genOfJson g)
+    | _ => throw "bad RPC"
+
+/-- a declared service: `{"sub": [...], "methods": [...]}`, or (inputs of earlier rounds) the bare list of RPC names = API package -/
 def svcOfJson (j : Json) : Except String Svc :=
   match j with
   | Json.arr _ => do pure ⟨[], ← strsOfJson j⟩
-  | _ => do pure ⟨← strsOfJson (← j.getObjVal? "sub"), ← strsOfJson (← j.getObjVal? "methods")⟩
+  | _ => do
+    let ms ← (← getArrL j "methods").mapM methOfJson
+    pure (⟨← strsOfJson (← j.getObjVal? "sub"), ms⟩ : SrcSvc).generated
 
 /-- the whole API and the sub-package of the examined service ("view", default the API package): the model works on
 `FullApi.view`, the `api` object that service's templates are rendered with -/
